@@ -27,12 +27,12 @@ from zorg.storage.sql import _repo as rp
 from zorg.storage.sql import _zid_manager as zm
 
 hx.stub_loggers()
-hd.json = hx.JsonShim
-zm.json = hx.JsonShim
-hd._hash_file = lambda p, chunk_size=8192: "H(" + p.read_text() + ")"
-hd._check_for_modified_notes = lambda zdir, page, old: None
-hd.tqdm = lambda it, **k: it
-c.zprint = lambda *a, **k: None
+hx.set(hd, "json", hx.JsonShim)
+hx.set(zm, "json", hx.JsonShim)
+hx.set(hd, "_hash_file", lambda p, chunk_size=8192: "H(" + p.read_text() + ")")
+hx.set(hd, "_check_for_modified_notes", lambda zdir, page, old: None)
+hx.set(hd, "tqdm", lambda it, **k: it)
+hx.set(c, "zprint", lambda *a, **k: None)
 hx.patch_clock(hd)
 KNOWN = set(x for x in os.environ.get("XH_KNOWN", "").split(",") if x)
 
@@ -66,7 +66,7 @@ def fake_walk(zdir, path, verbose=False):
     return page
 
 
-hd.walk_zorg_page = fake_walk
+hx.set(hd, "walk_zorg_page", fake_walk)
 
 
 class RecRepo:
